@@ -582,8 +582,12 @@ func vfxSuffrageProof(height base.Height, ntree int) isaacblock.SuffrageProof {
 	proof, err := tr.Proof(st.Hash().String())
 	vfxMust(err)
 
+	// the manifest names the root of that states tree (SuffrageProof.Prove compares them)
+	mf := vfxManifest(height, true)
+	mf = isaac.NewManifest(height, mf.Previous(), mf.Proposal(), mf.OperationsTree(), tr.Root(), mf.Suffrage(), vfxTime)
+
 	n0 := vfxN(0)
-	m := vfxBlockMap(vfxManifest(height, true), vfxAllItemTypes, &n0)
+	m := vfxBlockMap(mf, vfxAllItemTypes, &n0)
 
 	return isaacblock.NewSuffrageProof(m, st, proof)
 }
